@@ -105,6 +105,15 @@ pub fn c01_step() {
         for e in expect.iter() { s = [&s, ",", e].concat(); }
         match r { Response::Value { key: _, value, version: _ } => vsym::check("keys.exactly-live-matching-sorted", value == s), _ => vsym::check("keys.answered", false) }
     }
+    // link to the disk (C06): a key that has a record on disk (pre-state Ok / Updated / Deleted) keeps its entry and the offset of
+    // that record through every command - otherwise the next incremental snapshot cannot update or tombstone the record and the
+    // old value comes back after a restart
+    if st >= 2 {
+        match peek(&n.dbs, "d", "k") {
+            Some(a) => vsym::check("persisted-key.keeps-its-disk-record", a.key_disk_addr == kaddr && a.state != ValueStatus::New),
+            None => vsym::check("persisted-key.keeps-its-disk-record", false),
+        }
+    }
     // no other key altered
     let nb = peek(&n.dbs, "d", "kn").unwrap();
     vsym::check("neighbour.untouched", nb.value == "nv" && nb.version == 3 && nb.state == ValueStatus::Ok && nb.value_disk_addr == 40 && nb.key_disk_addr == 50);
